@@ -511,7 +511,214 @@ func checkStringified(c *vm.Ctx, r *vm.Rand, g *nbtgen.G) {
 	c.Cover("snbt.field.roundtrip")
 }
 
+// --- same NBT name reachable through several embedded structs -------------------------------------------
+//
+// The generated universe keeps names globally distinct. Here a name is deliberately offered by two or
+// three fields at chosen embedding depths, each either tagged `nbt:"K"` or an untagged Go field K. The Go
+// embedding rules as adopted by encoding/json (and by this package: typeinfo.go says so) decide who owns
+// the name: the shallowest field; among several at that depth the only tagged one; otherwise nobody.
+// The owner must survive the round trip, the others stay zero in a fresh variable, and K is emitted at
+// most once.
+type carrier struct {
+	depth  int
+	tagged bool
+}
+
+func conflictType(cs []carrier, ft reflect.Type) (t reflect.Type, paths [][]int, ok bool) {
+	var outer []reflect.StructField
+	outer = append(outer, reflect.StructField{Name: "Own", Type: reflect.TypeOf(int32(0)), Tag: `nbt:"own"`})
+	seenUntagged0 := false
+	for i, cr := range cs {
+		var leaf reflect.StructField
+		if cr.tagged {
+			leaf = reflect.StructField{Name: fmt.Sprintf("T%d", i), Type: ft, Tag: `nbt:"K"`}
+		} else {
+			leaf = reflect.StructField{Name: "K", Type: ft}
+		}
+		uniq := func(l int) reflect.StructField {
+			return reflect.StructField{Name: fmt.Sprintf("U%d_%d", i, l), Type: reflect.TypeOf(int32(0)), Tag: reflect.StructTag(fmt.Sprintf(`nbt:"u%d_%d"`, i, l))}
+		}
+		switch cr.depth {
+		case 0:
+			if !cr.tagged {
+				if seenUntagged0 {
+					return nil, nil, false
+				}
+				seenUntagged0 = true
+			}
+			paths = append(paths, []int{len(outer)})
+			outer = append(outer, leaf)
+		case 1:
+			e := reflect.StructOf([]reflect.StructField{uniq(1), leaf})
+			paths = append(paths, []int{len(outer), 1})
+			outer = append(outer, reflect.StructField{Name: fmt.Sprintf("E%d", i), Type: e, Anonymous: true})
+		case 2:
+			e2 := reflect.StructOf([]reflect.StructField{leaf, uniq(2)})
+			e1 := reflect.StructOf([]reflect.StructField{uniq(1), {Name: fmt.Sprintf("D%d", i), Type: e2, Anonymous: true}})
+			paths = append(paths, []int{len(outer), 1, 0})
+			outer = append(outer, reflect.StructField{Name: fmt.Sprintf("E%d", i), Type: e1, Anonymous: true})
+		}
+	}
+	return reflect.StructOf(outer), paths, true
+}
+
+// owner applies the embedding rules: index of the carrier owning the name, or -1.
+func owner(cs []carrier) int {
+	min := 99
+	for _, cr := range cs {
+		if cr.depth < min {
+			min = cr.depth
+		}
+	}
+	var at, tagged []int
+	for i, cr := range cs {
+		if cr.depth == min {
+			at = append(at, i)
+			if cr.tagged {
+				tagged = append(tagged, i)
+			}
+		}
+	}
+	if len(at) == 1 {
+		return at[0]
+	}
+	if len(tagged) == 1 {
+		return tagged[0]
+	}
+	return -1
+}
+
+func checkNameConflicts(c *vm.Ctx, r *vm.Rand) {
+	var all [][]carrier
+	one := []carrier{{0, false}, {0, true}, {1, false}, {1, true}, {2, false}, {2, true}}
+	for _, a := range one {
+		for _, b := range one {
+			all = append(all, []carrier{a, b})
+			for _, d := range one {
+				all = append(all, []carrier{a, b, d})
+			}
+		}
+	}
+	fts := []reflect.Type{reflect.TypeOf(int32(0)), reflect.TypeOf(""), reflect.TypeOf([]int64(nil))}
+	setLeaf := func(v reflect.Value, k int) {
+		switch v.Kind() {
+		case reflect.Int32:
+			v.SetInt(int64(1000 + k))
+		case reflect.String:
+			v.SetString(fmt.Sprintf("v%d", k))
+		default:
+			v.Set(reflect.ValueOf([]int64{int64(k + 1), 7}))
+		}
+	}
+	for ci, cs := range all {
+		ft := fts[ci%len(fts)]
+		t, paths, ok := conflictType(cs, ft)
+		if !ok {
+			continue
+		}
+		own := owner(cs)
+		for _, network := range []bool{false, true} {
+			for _, byPtr := range []bool{false, true} {
+				v := reflect.New(t).Elem()
+				v.Field(0).SetInt(int64(r.Range(1, 1<<20)))
+				for k, p := range paths {
+					setLeaf(v.FieldByIndex(p), k)
+				}
+				// the unique members of the embedded structs
+				var fillU func(x reflect.Value)
+				fillU = func(x reflect.Value) {
+					for i := 0; i < x.NumField(); i++ {
+						sf := x.Type().Field(i)
+						if sf.Anonymous {
+							fillU(x.Field(i))
+						} else if len(sf.Name) > 1 && sf.Name[0] == 'U' {
+							x.Field(i).SetInt(int64(r.Range(1, 1<<20)))
+						}
+					}
+				}
+				fillU(v)
+				desc := fmt.Sprintf("%v owner=%d", cs, own)
+				wit := func() any {
+					return map[string]any{"go_type": short(t.String()), "go_value": short(fmt.Sprintf("%+v", v.Interface())), "carriers_depth_tagged": fmt.Sprint(cs), "owner_by_embedding_rules": own, "network": network, "by_pointer": byPtr}
+				}
+				c.Eval(vm.HashStr("conflict", desc, ft.String(), fmt.Sprint(network, byPtr)), true)
+				var buf bytes.Buffer
+				var err error
+				if c.Guard("conflict/marshal", wit, func() {
+					enc := nbt.NewEncoder(&buf)
+					enc.NetworkFormat(network)
+					if byPtr {
+						err = enc.Encode(v.Addr().Interface(), "")
+					} else {
+						err = enc.Encode(v.Interface(), "")
+					}
+				}) {
+					continue
+				}
+				if err != nil {
+					c.Violation("conflict/marshal-error/"+vm.NormErr(err.Error()), "Marshal failed on a struct whose embedded structs share a name: "+err.Error(), wit())
+					continue
+				}
+				tree, _, used, perr := refnbt.Parse(buf.Bytes(), network)
+				if perr != nil || used != buf.Len() {
+					c.Violation("conflict/malformed", fmt.Sprintf("emitted document not well-formed: %v", perr), wit())
+					continue
+				}
+				nK := 0
+				for _, e := range tree.Comp {
+					if e.Name == "K" {
+						nK++
+					}
+				}
+				wantK := 0
+				if own >= 0 {
+					wantK = 1
+				}
+				if nK != wantK {
+					c.Violation(fmt.Sprintf("conflict/emitted-%d-want-%d", nK, wantK), fmt.Sprintf("name K emitted %d times, the embedding rules give it %d owner(s) (carriers %v)", nK, wantK, cs), wit())
+					continue
+				}
+				out := reflect.New(t)
+				if c.Guard("conflict/unmarshal", wit, func() {
+					dec := nbt.NewDecoder(bytes.NewReader(buf.Bytes()))
+					dec.NetworkFormat(network)
+					_, err = dec.Decode(out.Interface())
+				}) {
+					continue
+				}
+				if err != nil {
+					c.Violation("conflict/unmarshal-error/"+vm.NormErr(err.Error()), "decoding the encoding of v into a fresh variable of v's type failed: "+err.Error(), wit())
+					continue
+				}
+				want := gotypes.Clone(v)
+				for k, p := range paths {
+					if k != own {
+						f := want.FieldByIndex(p)
+						f.Set(reflect.Zero(f.Type()))
+					}
+				}
+				if d := gotypes.EqualGo(want, out.Elem()); d != "" {
+					cls := "owner-lost"
+					if own < 0 {
+						cls = "ownerless-name-decoded"
+					}
+					c.Violation("conflict/roundtrip-mismatch/"+cls, fmt.Sprintf("carriers (depth,tagged) %v, owner %d: round trip differs: %s", cs, own, d), wit())
+					continue
+				}
+				if own >= 0 {
+					c.Cover(fmt.Sprintf("conflict.owner.depth%d.tagged-%v", cs[own].depth, cs[own].tagged))
+				} else {
+					c.Cover("conflict.no-owner")
+				}
+			}
+		}
+	}
+}
+
 func run(c *vm.Ctx) {
+	if c.Shard == 0 {
+		checkNameConflicts(c, c.Rand("conflicts"))
+	}
 	r := c.Rand("types")
 	tg := gotypes.New(r)
 	nTypes := c.Scale(3000, 40000)
